@@ -268,26 +268,39 @@ pub fn turn_table(delay: &[f64]) -> HashMap<Turn, Time> {
     turns.into_iter().zip(delay.iter()).map(|(t, d)| (t, Time::new(*d))).collect()
 }
 
+/// the units record with every field present: distance / time / speed / delay are the units the traversal and
+/// access models are configured with, state_distance / state_time the units the state features are declared in
+pub fn norm_units(scn: &Value) -> Value {
+    let u = &scn["units"];
+    let g = |k: &str, d: &str| u[k].as_str().unwrap_or(d).to_string();
+    let (d, t) = (g("distance", "meters"), g("time", "seconds"));
+    json!({"distance": d, "time": t, "speed": g("speed", "mps"), "delay": g("delay", "seconds"),
+           "state_distance": g("state_distance", &d), "state_time": g("state_time", &t)})
+}
+
 pub fn build_instance(scn: &Value) -> Result<Built, String> {
     let graph = Arc::new(build_graph(scn));
     let ne = graph.n_edges();
-    let du = dunit(scn["units"]["distance"].as_str().unwrap_or("meters"));
-    let tu = tunit(scn["units"]["time"].as_str().unwrap_or("seconds"));
-    let su = sunit(scn["units"]["speed"].as_str().unwrap_or("mps"));
+    let nu = norm_units(scn);
+    let du = dunit(nu["distance"].as_str().unwrap());
+    let tu = tunit(nu["time"].as_str().unwrap());
+    let su = sunit(nu["speed"].as_str().unwrap());
+    let sdu = dunit(nu["state_distance"].as_str().unwrap());
+    let stu = tunit(nu["state_time"].as_str().unwrap());
     let init = scn["init"].as_array().unwrap();
-    // initial values are given in metres / seconds and declared in the configured units
-    let d0 = DistanceUnit::Meters.convert(&Distance::new(jf(&init[0])), &du);
-    let t0 = TimeUnit::Seconds.convert(&Time::new(jf(&init[1])), &tu);
+    // initial values are given in metres / seconds and declared in the units of the state features
+    let d0 = DistanceUnit::Meters.convert(&Distance::new(jf(&init[0])), &sdu);
+    let t0 = TimeUnit::Seconds.convert(&Time::new(jf(&init[1])), &stu);
     let state_model = Arc::new(StateModel::new(vec![
-        (String::from("distance"), StateFeature::Distance { distance_unit: du, initial: d0 }),
-        (String::from("time"), StateFeature::Time { time_unit: tu, initial: t0 }),
+        (String::from("distance"), StateFeature::Distance { distance_unit: sdu, initial: d0 }),
+        (String::from("time"), StateFeature::Time { time_unit: stu, initial: t0 }),
     ]));
     let rec = Arc::new(Recorder::default());
 
     // traversal model: built by the application's builders from a configuration object and files
     let dir = scratch_dir();
     let uname = |v: &Value, d: &str| -> String { v.as_str().unwrap_or(d).to_string() };
-    let units = &scn["units"];
+    let units = &nu;
     let model = scn["model"].as_str().unwrap_or("speed");
     let inner_t: Arc<dyn TraversalModel> = if model == "distance" {
         let svc = DistanceTraversalBuilder {}
@@ -415,10 +428,21 @@ pub fn build_instance(scn: &Value) -> Result<Built, String> {
     if scn["veh_on"].as_bool().unwrap_or(false) {
         let path = dir.join("vehicle_restrictions.csv");
         let mut txt = String::from("edge_id,restriction_name,restriction_value,restriction_unit\n");
+        // the file is a table, not a list grouped by edge: rows of one edge need not be adjacent
+        let mut rows: Vec<(usize, usize, String)> = vec![];
         for (i, rs) in scn["vrestr"].as_array().unwrap().iter().enumerate() {
-            for r in rs.as_array().unwrap() {
-                txt.push_str(&format!("{},{},{},{}\n", i, r["kind"].as_str().unwrap(), r["val"], r["unit"].as_str().unwrap()));
+            for (k, r) in rs.as_array().unwrap().iter().enumerate() {
+                rows.push((i, k, format!("{},{},{},{}\n", i, r["kind"].as_str().unwrap(), r["val"], r["unit"].as_str().unwrap())));
             }
+        }
+        match scn["vr_order"].as_str().unwrap_or("edge") {
+            "interleaved" => rows.sort_by_key(|r| (r.1, r.0)),                  // every edge's first row, then the second rows
+            "reverse" => rows.reverse(),
+            "by_kind" => rows.sort_by(|a, b| a.2.split(',').nth(1).cmp(&b.2.split(',').nth(1))),
+            _ => {}
+        }
+        for r in &rows {
+            txt.push_str(&r.2);
         }
         std::fs::write(&path, txt).unwrap();
         models.push(json!({"type": "vehicle_restriction", "vehicle_restriction_input_file": path.to_str().unwrap()}));
@@ -482,15 +506,13 @@ impl<'a> Lg<'a> {
         let t = sm.get_time(&sv, &String::from("time"), &TimeUnit::Seconds).map(|d| d.as_f64());
         match (d, t) {
             (Ok(d), Ok(t)) => {
-                if self.exact {
-                    // exact profile: values must be integral; a non-integral value is logged scaled by 1000 with a marker
-                    match (exact_int(d), exact_int(t)) {
-                        (Ok(d), Ok(t)) => json!([d, t]),
-                        _ => json!([scaled(d, 1000.0), scaled(t, 1000.0), "inexact"]),
-                    }
-                } else {
-                    // unit profile: millimetres / milliseconds
-                    json!([scaled(d, 1000.0), scaled(t, 1000.0)])
+                // values must be integral (metres / seconds): exactly in the base-unit profile, within the noise of a
+                // there-and-back unit conversion (1e-6 relative) in the unit profile; anything else is logged scaled
+                // by 1000 with a marker, which no specification state equals
+                let f = if self.exact { exact_int } else { near_int };
+                match (f(d), f(t)) {
+                    (Ok(d), Ok(t)) => json!([d, t]),
+                    _ => json!([scaled(d, 1000.0), scaled(t, 1000.0), "inexact"]),
                 }
             }
             _ => json!(["state-error"]),
@@ -616,6 +638,12 @@ pub fn relax_events(lg: &Lg, calls: &[Call]) -> Vec<Value> {
     evs
 }
 
+/// every unit of the scenario is the base unit: no conversion happens anywhere and logged values must be exact
+pub fn base_units(scn: &Value) -> bool {
+    norm_units(scn) == json!({"distance": "meters", "time": "seconds", "speed": "mps", "delay": "seconds",
+                              "state_distance": "meters", "state_time": "seconds"})
+}
+
 fn algorithm(scn: &Value) -> SearchAlgorithm {
     match scn["alg"].as_str().unwrap_or("dijkstra") {
         "dijkstra" => SearchAlgorithm::Dijkstra,
@@ -657,6 +685,7 @@ fn setup_event(scn: &Value, b: &Built, lg: &Lg) -> Value {
     ev["h"] = json!(h);
     ev["gc"] = json!(gc);
     ev["init_obs"] = lg.st(&raw(&init));
+    ev["units"] = norm_units(scn);
     ev
 }
 
@@ -669,8 +698,7 @@ pub fn run_scenario(out: &mut Out, scn: &Value) {
             return;
         }
     };
-    let exact = scn["profile"].as_str().unwrap_or("exact") == "exact";
-    let lg = Lg { b: &b, exact };
+    let lg = Lg { b: &b, exact: base_units(scn) };
     out.event(setup_event(scn, &b, &lg));
     let alg = algorithm(scn);
     let dir = if scn["dir"].as_str().unwrap_or("fwd") == "fwd" { Direction::Forward } else { Direction::Reverse };
@@ -744,7 +772,37 @@ pub fn gen_scenario(r: &mut StdRng, o: &GenOpts) -> Value {
     }
     let metric = r.gen_bool(0.75);
     let ne = r.gen_range(1..=(nv * 3).max(2));
-    let speeds = [1i64, 2, 4, 5, 10];
+    // unit profile: the state features, the traversal model, the speed table and the turn-delay table each get their
+    // own unit.  Only units whose factors are decimal or sexagesimal are drawn, and every edge time / delay is a
+    // multiple of tq seconds, so that every state value is an integer in metres / seconds and every cost an integer
+    // in milli-cost: the trace stays exact.
+    let p_units = match o.focus.as_str() {
+        "c02" => 0.4,
+        "c03" => 0.5,
+        "c20" | "c06" | "c12" => 0.0,
+        _ => 0.15,
+    };
+    let unit_profile = r.gen_bool(p_units);
+    let dus = ["meters", "kilometers"];
+    let tus = ["seconds", "milliseconds", "minutes", "hours"];
+    let mut units = json!({"distance": "meters", "time": "seconds", "speed": "mps", "delay": "seconds",
+                           "state_distance": "meters", "state_time": "seconds"});
+    if unit_profile {
+        let st = if nv <= 8 { ["seconds", "minutes", "hours", "minutes", "hours", "milliseconds"][r.gen_range(0..6)] } else { ["seconds", "minutes", "hours"][r.gen_range(0..3)] };
+        units = json!({"distance": dus[r.gen_range(0..2)], "time": tus[r.gen_range(0..4)],
+                       "speed": if r.gen_bool(0.5) {"kph"} else {"mps"}, "delay": tus[r.gen_range(0..4)],
+                       "state_distance": dus[r.gen_range(0..2)], "state_time": st});
+    }
+    let ms_state = units["state_time"] == "milliseconds"; // large numbers: keep times and weights small (32-bit milli-cost)
+    if ms_state {
+        // add_time reads the accumulated value in the caller's unit and writes it back: with the nine-digit factors
+        // between milliseconds and minutes / hours the accumulated 1e6 ms drift by 1e-3 ms per update, which is
+        // visible in milli-cost.  (C09 / C11 bound that drift; here the trace must stay exact.)
+        units["time"] = json!(["seconds", "milliseconds"][r.gen_range(0..2)]);
+        units["delay"] = json!(["seconds", "milliseconds"][r.gen_range(0..2)]);
+    }
+    let tq: i64 = match units["state_time"].as_str().unwrap() { "minutes" => 3, "hours" => 18, _ => 1 };
+    let speeds: &[i64] = if ms_state { &[10] } else { &[1i64, 2, 4, 5, 10] };
     let mut edges = vec![];
     let mut hd = vec![];
     // a random backbone (most of the time) keeps a fair share of the queries answerable
@@ -764,10 +822,10 @@ pub fn gen_scenario(r: &mut StdRng, o: &GenOpts) -> Value {
         let len = if metric {
             let (dx, dy) = ((xy[s].0 - xy[d].0) as f64, (xy[s].1 - xy[d].1) as f64);
             let gc = 111_320.0 * 0.001 * (dx * dx + dy * dy).sqrt(); // generous upper estimate of the great-circle distance
-            let base = (gc * 1.02).ceil() as i64 + 1 + if r.gen_bool(0.5) { r.gen_range(0..400) } else { 0 };
-            ((base + spd - 1) / spd) * spd
+            let base = (gc * 1.02).ceil() as i64 + 1 + if !ms_state && r.gen_bool(0.5) { r.gen_range(0..400) } else { 0 };
+            ((base + spd * tq - 1) / (spd * tq)) * spd * tq
         } else {
-            spd * r.gen_range(1..=300)
+            spd * tq * r.gen_range(1..=(if ms_state { 60 } else { 300 / tq }))
         };
         edges.push(json!([s + 1, d + 1, len, spd]));
         let a = r.gen_range(0..360);
@@ -794,7 +852,14 @@ pub fn gen_scenario(r: &mut StdRng, o: &GenOpts) -> Value {
         wt = 1;
     }
     let rd = [1i64, 1, 2, 3][r.gen_range(0..4)];
-    let rt = [1i64, 1, 2, 5][r.gen_range(0..4)];
+    let mut rt = [1i64, 1, 2, 5][r.gen_range(0..4)];
+    if ms_state {
+        wt = wt.min(2);
+        rt = if wt == 2 { 1 } else { rt.min(2) };
+        if wd + wt == 0 {
+            wt = 1;
+        }
+    }
     let sur: Vec<i64> = (0..ne).map(|_| if r.gen_bool(0.15) { r.gen_range(1..200) } else { 0 }).collect();
     let with_sur = r.gen_bool(0.3);
     let sur: Vec<i64> = if with_sur { sur } else { vec![0; ne] };
@@ -804,7 +869,7 @@ pub fn gen_scenario(r: &mut StdRng, o: &GenOpts) -> Value {
         "c02" | "c05" => false,
         _ => r.gen_bool(0.3),
     } && model == "speed";
-    let delay: Vec<i64> = (0..8).map(|_| r.gen_range(0..=30)).collect();
+    let delay: Vec<i64> = (0..8).map(|_| tq * r.gen_range(0..=(30 / tq))).collect();
     // frontier
     let with_cls = match o.focus.as_str() {
         "c04" | "c05" => r.gen_bool(0.8),
@@ -824,7 +889,7 @@ pub fn gen_scenario(r: &mut StdRng, o: &GenOpts) -> Value {
         "acc": if turn {"turn"} else {"none"}, "delay": if turn { delay } else { vec![0; 8] },
         "bad": [], "itl": -1, "szl": -1,
         "init": if r.gen_bool(0.2) { json!([r.gen_range(0..1000), r.gen_range(0..1000)]) } else { json!([0, 0]) },
-        "units": {"distance": "meters", "time": "seconds", "speed": "mps", "delay": "seconds"},
+        "units": units,
         "cls": [], "allowed_on": false, "allowed": [], "est_mode": "real", "hscript": [],
         "orient": "vertex", "osrc": 0, "odst": 0,
         "cost_src": if r.gen_bool(0.35) {"query"} else {"config"},
@@ -904,7 +969,7 @@ pub fn gen_scenario(r: &mut StdRng, o: &GenOpts) -> Value {
         let vr: Vec<Value> = (0..ne)
             .map(|_| {
                 let mut rs = vec![];
-                for _ in 0..(if r.gen_bool(0.5) { 0 } else { r.gen_range(1..=2) }) {
+                for _ in 0..(if r.gen_bool(0.4) { 0 } else { r.gen_range(1..=3) }) {
                     let (k, opts) = table[r.gen_range(0..6)];
                     let (v, u) = opts[r.gen_range(0..opts.len())];
                     rs.push(json!({"kind": k, "val": v, "unit": u}));
@@ -914,6 +979,7 @@ pub fn gen_scenario(r: &mut StdRng, o: &GenOpts) -> Value {
             .collect();
         scn["veh_on"] = json!(true);
         scn["vrestr"] = json!(vr);
+        scn["vr_order"] = json!(["edge", "interleaved", "reverse", "by_kind"][r.gen_range(0..4)]);
     }
     if o.focus == "c10" || r.gen_bool(0.1) {
         if r.gen_bool(0.7) {
